@@ -1,6 +1,7 @@
 package e1
 
 import (
+	"runtime"
 	"encoding/json"
 	"fmt"
 	"io"
@@ -376,6 +377,27 @@ func (e *Engine) Replay(env *core.Env, c *core.Case) (string, string, []string) 
 // Minimise: fewer clients, shorter programs (ddmin), then a shorter and
 // zero-er tape, while the same signature persists.  Every candidate is a fresh
 // deterministic run.
+// flushProcessState empties what the code under test may keep in the process
+// between runs and a fresh replay process would not have: sync.Pool contents
+// are dropped by two garbage collections.
+func flushProcessState() {
+	runtime.GC()
+	runtime.GC()
+}
+
+// Confirm re-runs a case with the process state flushed (core.Confirmer).
+func (e *Engine) Confirm(env *core.Env, c *core.Case) bool {
+	def := props[c.Property]
+	sc := &Scenario{}
+	if def == nil || json.Unmarshal(c.Body, sc) != nil {
+		return true
+	}
+	flushProcessState()
+	rr := runWith(def, e.T, sc, core.NewReplayTape(c.Tape), nil, false)
+	sig, _ := judge(def, sc, rr, env)
+	return sig == c.Signature
+}
+
 func (e *Engine) Minimise(env *core.Env, c *core.Case) *core.Case {
 	def := props[c.Property]
 	sc := &Scenario{}
@@ -389,6 +411,7 @@ func (e *Engine) Minimise(env *core.Env, c *core.Case) *core.Case {
 		}
 		budget--
 		cp := cloneScenario(s)
+		flushProcessState()
 		rr := runWith(def, e.T, cp, core.NewReplayTape(tape), nil, false)
 		sig, _ := judge(def, cp, rr, env)
 		return sig == c.Signature
